@@ -48,6 +48,12 @@ def variant(x, kind):
     elif kind == "extend":
         t.setdefault("Parameters", {})["ZzUnusedParam"] = {"Type": "String", "Default": "unused"}
         t["Parameters"]["ZzUnusedList"] = {"Type": "CommaDelimitedList"}
+        for n, d in list(t["Parameters"].items()):
+            if isinstance(d, dict) and str(d.get("Type", "")).startswith("AWS::SSM::Parameter::Value<") and isinstance(d.get("Default"), str):
+                # an unused declaration that points at the same SSM name as a used one
+                t["Parameters"]["AaUnusedSsm"] = {"Type": d["Type"], "Default": d["Default"]}
+                t["Parameters"] = {"AaUnusedSsm": t["Parameters"].pop("AaUnusedSsm"), **t["Parameters"]}
+                break
         t.setdefault("Mappings", {})["ZzUnusedMap"] = {"a": {"b": "c"}}
         t.setdefault("Conditions", {})["ZzUnusedCond"] = {"Fn::Equals": ["a", "b"]}
         t.setdefault("Resources", {})["ZzOther"] = {"Type": "Custom::Other", "Properties": {
